@@ -126,6 +126,14 @@ def check_bin(r, b, tag):
     src_ok = any(st[0] == "call" and st[3] == reads[0] for st in mir.subterms(rd) if st[0] == "call" and len(st) > 3)
     r.ob("R12.2.input-is-parsed" + sfx, run_b.name, src_ok, "into_struct reads a quick_xml Reader over the string returned by read_to_string(config.input_path)"
          if src_ok else "the reader handed to into_struct is not built from the file contents: %s" % term_s(rd)[:100], site=parse[0], key="R12.2|input" + sfx)
+    # R12.8 strict decoding: non-UTF-8 input must be refused
+    from . import c08
+    c08.forbidden_calls(r, b, c08.LOSSY, "R12.8.strict-input-decoding" + sfx, "`%s` decodes leniently: a non-UTF-8 input file would be accepted instead of refused")
+    rn = cname(reads[0].node)
+    strict = rn == "std::fs::read_to_string" or any(st[0] == "call" and st[1] in ("std::string::String::from_utf8", "core::str::from_utf8", "std::str::from_utf8")
+                                                      for st in mir.subterms(rd))
+    r.ob("R12.8.strict-input-decoding" + sfx, run_b.name, strict, "the input is decoded by %s (strict UTF-8, error propagated)" % rn.split("::")[-1] if strict else
+         "the input is read with `%s` and reaches the parser without a strict UTF-8 check" % rn, site=reads[0], key="R12.8|decode" + sfx)
     pth = strip(term_of(run_b, reads[0].node["args"][0]))
     r.ob("R12.2.input-path" + sfx, run_b.name, _is_field(pth, "input_path"), "input is read from config.input_path" if _is_field(pth, "input_path")
          else "input path is %s" % term_s(pth), site=reads[0], key="R12.2|input-path" + sfx)
